@@ -25,7 +25,7 @@ func init() {
 			"a bar with zero TimeSig inherits the previous bar's signature at AddBar time (documented behaviour of AddBar)",
 			"per-track assignment in ToSMF1 (events of track number n on the n-th used track) is read as part of 'multi-track export'",
 		},
-		Require: []string{"songs", "bars_num_ge_8", "sig_changes", "notes_with_duration", "smf1_tracks", "compound_meters", "in_place_edits_between_exports", "shared_pattern_songs"},
+		Require: []string{"note_offs_edited_in_exported_files", "songs", "bars_num_ge_8", "sig_changes", "notes_with_duration", "smf1_tracks", "compound_meters", "in_place_edits_between_exports", "shared_pattern_songs"},
 		Run:     runC20,
 	})
 }
@@ -277,6 +277,21 @@ func checkSongEdited(c *mon.Ctx, s *c20Song, editBar int, newSig [2]uint8) {
 		c.Violation("smf1-events", "ToSMF1: (tick, message) multiset differs from bar arithmetic: "+firstTMDiff(wantAll, got1All), in, showTM(wantAll), showTM(got1All))
 	}
 	c.Count("songs", 1)
+	// The exported files belong to the caller. Editing the note-off messages the export created (remapping
+	// the channel, transposing) must not leak into any later export: the following songs of this worker are
+	// independent of this one and are checked against their own model as before.
+	for _, f := range []smf.SMF{sm0, sm1} {
+		for _, tr := range f.Tracks {
+			for _, e := range tr {
+				if len(e.Message) == 3 && e.Message[0]&0xF0 == 0x80 {
+					e.Message[0] = 0x80 | (e.Message[0]+9)&0x0F
+					e.Message[1] = (e.Message[1] + 5) & 0x7F
+					e.Message[2] = 0x55
+					c.Count("note_offs_edited_in_exported_files", 1)
+				}
+			}
+		}
+	}
 }
 
 var c20Dens = []int{1, 2, 4, 8, 16, 32}
